@@ -12,7 +12,7 @@ from checks.fmt_common import *
 
 LEVEL = "proof"
 THEOREMS = ["content_preserved", "only_trailing_ws_trimmed", "ifbreak_only_separator", "output_eq_leaves_mod_commas",
-            "ifbreak_only_separator_needs_side_condition"]
+            "ifbreak_only_separator_needs_side_condition", "output_opts_invariant"]
 LAYOUT_OK = "reparse=ok tokens=ok comments=ok"
 # `Formatter::format` renders with strip_trailing_whitespace over the WHOLE text, so blanks at line ends inside
 # embedded foreign code (`embed (…) lang{{{ … }}}`: one multi-line token) are trimmed too — a token text changes.
